@@ -272,7 +272,8 @@ def run(chk: Check) -> int:
              "ask/tell out of order/tell_many batch+incremental/tell_pending/remove_unfinished) replayed on the learner rescaled "
              "by sigma=2^k, tau=2^m, k,m uniform in [-30,30] independently; non-trivial = (k,m)!=(0,0), an ask chose interior "
              "points while points were pending, and at least one rescale sweep happened; distinct by (config, op list). "
-             "ND: see impl_c12_lnd (2D/3D boxes, default/uniform loss, common 2^k on axes, 2^m on values)",
+             "ND: see impl_c12_lnd (2D/3D boxes; default, uniform, triangle and curvature loss -- the last two with nth_neighbors = 1; "
+             "scalar and vector outputs; common 2^k on axes, 2^m on values)",
         assumptions=["hand-written model Model/L1D.v tied to learner1D.py by the sampled bit-exact correspondence",
                      "loss_per_interval is an oracle; the theorem assumes it ignores a common rescaling of values it receives "
                      "un-normalised while their range is zero (LossFlat; proved inhabited)",
